@@ -214,9 +214,18 @@ def rand_case(rng):
                 pre.append([n, rand_expr(rng, 1, EV, EF, rich=False)])
                 all_good = False
         rng.shuffle(pre)
-        if rng.random() < 0.12:
-            pre.insert(rng.randint(0, len(pre)), ["nocand", V("a")])
-            tag += "+pre-noncand"
+        if rng.random() < 0.2:
+            # a pre-match for a name that is not a candidate: one that does not occur at all, or (more telling, since
+            # the target keeps such names literally and the rest still unifies) a variable or function symbol OF THE
+            # TEMPLATE that was left out of the candidates
+            others = sorted((vs | fs) - set(cands))
+            if others and rng.random() < 0.7:
+                n = rng.choice(others)
+                pre.insert(rng.randint(0, len(pre)), [n, V(rng.choice(EF if n in fs and n not in vs else EV))])
+                tag += "+pre-noncand-in-template"
+            else:
+                pre.insert(rng.randint(0, len(pre)), ["nocand", V("a")])
+                tag += "+pre-noncand"
         else:
             tag += ("+pre-ok" if all_good else "+pre-other") + str(len(pre))
     return {"op": "C17.match", "tag": tag, "tmpl": t, "target": e, "cands": cands, "pre": pre,
